@@ -731,7 +731,7 @@ func r35bKeyInjective(w *World) {
 		"len": "everything but the length", "cap": "everything",
 	}
 	injective := map[string]bool{
-		"strings.Join": true, "fmt.Sprintf": true, "fmt.Sprint": true, "slices.Values": true, "slices.Collect": true, "slices.Clone": true, "strconv.Itoa": true, "strconv.Quote": true,
+		"strings.Join": true, "strings.Clone": true, "bytes.Clone": true, "fmt.Sprintf": true, "fmt.Sprint": true, "slices.Values": true, "slices.Collect": true, "slices.Clone": true, "strconv.Itoa": true, "strconv.Quote": true,
 	}
 	n := 0
 	for _, f := range p.Syntax {
@@ -2067,4 +2067,486 @@ func rt3Scan(w *World, p *packages.Package) {
 		})
 	}
 	w.info("scratch-not-stored|count|"+p.PkgPath, token.NoPos, fmt.Sprintf("%d loops, %d scratch slices reset with [:0] in %s", nLoops, nScratch, p.PkgPath))
+}
+
+// RX8 (C23): location paths do not share storage while both are alive. Source-info paths are
+// built by appending to the parent's path. `v := append(base, x)` may return a slice that shares
+// base's backing array (whenever base has spare capacity, which paths built by repeated appends
+// usually have); a later `append(base, y)` then writes y over x *inside v*. The code guards the
+// places where two children of one path are alive at once with slices.Clone. The rule tracks, per
+// function of package sourceinfo, variables that alias a base slice this way; a second append to
+// the same (un-cloned) base marks them dirty, and any later read of a dirty variable — before it
+// is assigned again — is a violation: the path it holds now names another element (an extension's
+// locations are emitted under the message tag, the group's message under the extension's path).
+func rx8PathAliasing(w *World) {
+	w.rule("RX8")
+	p := w.pkg("sourceinfo")
+	if p == nil {
+		return
+	}
+	info := p.TypesInfo
+	nAlias := 0
+	for _, b := range allFuncBodies(p) {
+		if b.Lit != nil {
+			continue
+		}
+		isInt32Slice := func(e ast.Expr) bool {
+			t := info.TypeOf(e)
+			if t == nil {
+				return false
+			}
+			sl, ok := t.Underlying().(*types.Slice)
+			if !ok {
+				return false
+			}
+			bt, ok := sl.Elem().Underlying().(*types.Basic)
+			return ok && bt.Kind() == types.Int32
+		}
+		appendBase := func(e ast.Expr) (string, bool) {
+			c, ok := ast.Unparen(e).(*ast.CallExpr)
+			if !ok || !isBuiltinCall(info, c, "append") || len(c.Args) < 2 {
+				return "", false
+			}
+			id, ok := ast.Unparen(c.Args[0]).(*ast.Ident)
+			if !ok || !isInt32Slice(id) {
+				return "", false
+			}
+			return id.Name, true
+		}
+		has := false
+		ast.Inspect(b.Body, func(x ast.Node) bool {
+			if as, ok := x.(*ast.AssignStmt); ok && len(as.Lhs) == 1 && len(as.Rhs) == 1 {
+				if _, ok := appendBase(as.Rhs[0]); ok {
+					if _, isID := as.Lhs[0].(*ast.Ident); isID {
+						has = true
+					}
+				}
+			}
+			return true
+		})
+		if !has {
+			continue
+		}
+		g := buildCFG(info, b.Body)
+		d := &Dataflow{G: g, Must: false, Init: Facts{}}
+		type report struct {
+			pos token.Pos
+			msg string
+		}
+		var reports []report
+		reading := false
+		d.Transfer = func(n ast.Node, in Facts) Facts {
+			out := in
+			var defV, defBase string
+			if as, ok := n.(*ast.AssignStmt); ok && len(as.Lhs) == 1 && len(as.Rhs) == 1 {
+				if id, isID := as.Lhs[0].(*ast.Ident); isID {
+					defV = id.Name
+					if base, ok := appendBase(as.Rhs[0]); ok && base != defV {
+						defBase = base
+					}
+				}
+			}
+			// reads of dirty variables (the left-hand side of a plain redefinition is not a read)
+			ast.Inspect(n, func(y ast.Node) bool {
+				id, ok := y.(*ast.Ident)
+				if !ok {
+					return true
+				}
+				if as, ok := n.(*ast.AssignStmt); ok && len(as.Lhs) == 1 && as.Lhs[0] == ast.Expr(id) {
+					return true
+				}
+				for f := range in {
+					if strings.HasPrefix(f, "dirty:"+id.Name+"|") && reading {
+						reports = append(reports, report{id.Pos(), strings.TrimPrefix(f, "dirty:"+id.Name+"|")})
+					}
+				}
+				return true
+			})
+			// appends to a base that some live variable aliases (other than the defining statement's own)
+			ast.Inspect(n, func(y ast.Node) bool {
+				c, ok := y.(*ast.CallExpr)
+				if !ok {
+					return true
+				}
+				base, ok := appendBase(c)
+				if !ok {
+					return true
+				}
+				for f := range out {
+					if strings.HasPrefix(f, "alias:") && strings.HasSuffix(f, "|"+base) {
+						v := strings.TrimSuffix(strings.TrimPrefix(f, "alias:"), "|"+base)
+						if v == defV && defBase == base {
+							continue // the statement that (re)defines v itself
+						}
+						out = out.with("dirty:" + v + "|" + types.ExprString(c) + " at " + w.pos(c.Pos()))
+					}
+				}
+				return true
+			})
+			if defV != "" {
+				for f := range out {
+					if strings.HasPrefix(f, "alias:"+defV+"|") || strings.HasPrefix(f, "dirty:"+defV+"|") {
+						out = out.without(f)
+					}
+					// a redefined base no longer backs its aliases
+					if strings.HasPrefix(f, "alias:") && strings.HasSuffix(f, "|"+defV) {
+						out = out.without(f)
+					}
+				}
+				if defBase != "" {
+					out = out.with("alias:" + defV + "|" + defBase)
+				}
+			}
+			return out
+		}
+		d.Run()
+		reading = true
+		d.Walk(func(_ *cfg.Block, n ast.Node, before Facts) { d.Transfer(n, before) })
+		reading = false
+		// obligations: one per aliasing variable
+		seenVar := map[string]bool{}
+		ast.Inspect(b.Body, func(x ast.Node) bool {
+			if as, ok := x.(*ast.AssignStmt); ok && len(as.Lhs) == 1 && len(as.Rhs) == 1 {
+				if base, ok := appendBase(as.Rhs[0]); ok {
+					if id, isID := as.Lhs[0].(*ast.Ident); isID && id.Name != base && !seenVar[id.Name] {
+						seenVar[id.Name] = true
+						nAlias++
+						key := "path-aliasing|" + b.Label + "|" + id.Name
+						var bad []string
+						seenMsg := map[string]bool{}
+						for _, r := range reports {
+							if strings.Contains(r.msg, "") {
+								// reports carry the overwriting append; attribute by variable name at the read position
+							}
+							_ = r
+						}
+						for _, r := range reports {
+							// the read is of this variable when the identifier at r.pos has this name
+							name := ""
+							ast.Inspect(b.Body, func(z ast.Node) bool {
+								if zi, ok := z.(*ast.Ident); ok && zi.Pos() == r.pos {
+									name = zi.Name
+								}
+								return name == ""
+							})
+							if name == id.Name {
+								m := "read at " + w.pos(r.pos) + " after " + r.msg
+								if !seenMsg[m] {
+									seenMsg[m] = true
+									bad = append(bad, m)
+								}
+							}
+						}
+						if len(bad) == 0 {
+							w.ok(key, as.Pos(), id.Name+" = append("+base+", …) is never read after another append to "+base)
+						} else {
+							sort.Strings(bad)
+							if len(bad) > 3 {
+								bad = append(bad[:3], "…")
+							}
+							w.violation(key, as.Pos(), id.Name+" was built by appending to "+base+" and may share its backing array; it is "+strings.Join(bad, "; ")+": that append overwrites the last element of "+id.Name+" in place, so the locations emitted with it afterwards carry the path of a different element (clone the base before the second append)")
+						}
+					}
+				}
+			}
+			return true
+		})
+	}
+	w.floor("path variables built by append in sourceinfo", nAlias, 2)
+}
+
+// RR6 (C11): no source text is dropped by the trivia accessors. The functions of ast/file_info.go
+// that hand out pieces of the source (…Whitespace, RawText) slice FileInfo.data between two item
+// boundaries; the file's bytes are reproduced only if the pieces tile it, so such an accessor may
+// answer with the constant "" only for a dummy file (no source at all). An early `return ""`
+// under any other condition — "the first item has no predecessor" — drops the bytes before that
+// item (white space at the start of the file).
+func rr6TriviaNeverDropped(w *World) {
+	w.rule("RR6")
+	p := w.pkg("ast")
+	if p == nil {
+		return
+	}
+	info := p.TypesInfo
+	n := 0
+	for _, b := range allFuncBodies(p) {
+		if b.Lit != nil || !strings.HasSuffix(w.Fset.Position(b.Decl.Pos()).Filename, "file_info.go") {
+			continue
+		}
+		name := b.Obj.Name()
+		if !strings.Contains(name, "Whitespace") && name != "RawText" {
+			continue
+		}
+		// slices FileInfo.data?
+		slicesData := false
+		ast.Inspect(b.Body, func(x ast.Node) bool {
+			if se, ok := x.(*ast.SliceExpr); ok {
+				if sel, ok := ast.Unparen(se.X).(*ast.SelectorExpr); ok && sel.Sel.Name == "data" {
+					slicesData = true
+				}
+			}
+			return true
+		})
+		if !slicesData {
+			continue
+		}
+		n++
+		parents := parentMap(b.Decl)
+		var bad []string
+		ast.Inspect(b.Body, func(x ast.Node) bool {
+			r, ok := x.(*ast.ReturnStmt)
+			if !ok || len(r.Results) != 1 {
+				return true
+			}
+			tv, ok := info.Types[r.Results[0]]
+			if !ok || tv.Value == nil || tv.Value.Kind() != constant.String || constant.StringVal(tv.Value) != "" {
+				return true
+			}
+			// the enclosing condition
+			blk, _ := parents[r].(*ast.BlockStmt)
+			ifs, _ := parents[blk].(*ast.IfStmt)
+			if ifs == nil {
+				bad = append(bad, "an unconditional return \"\" at "+w.pos(r.Pos()))
+				return true
+			}
+			onlyDummy := true
+			var leaves func(e ast.Expr)
+			leaves = func(e ast.Expr) {
+				e = ast.Unparen(e)
+				if be, ok := e.(*ast.BinaryExpr); ok && (be.Op == token.LOR || be.Op == token.LAND) {
+					leaves(be.X)
+					leaves(be.Y)
+					return
+				}
+				if c, ok := e.(*ast.CallExpr); ok {
+					if f := callee(info, c); f != nil && strings.Contains(strings.ToLower(f.Name()), "dummy") {
+						return
+					}
+				}
+				onlyDummy = false
+			}
+			leaves(ifs.Cond)
+			if !onlyDummy {
+				bad = append(bad, "return \"\" under `"+types.ExprString(ifs.Cond)+"` at "+w.pos(r.Pos()))
+			}
+			return true
+		})
+		key := "trivia-never-dropped|" + b.Label
+		if len(bad) == 0 {
+			w.ok(key, b.Decl.Pos(), "answers with the empty string only for a dummy file; otherwise it slices the source between item boundaries")
+		} else {
+			w.violation(key, b.Decl.Pos(), b.Label+" has "+strings.Join(bad, "; ")+": the bytes between the previous boundary (offset 0 for the first item) and this item are dropped, so a file that starts with white space no longer prints back to its source")
+		}
+	}
+	w.floor("trivia accessors slicing FileInfo.data", n, 3)
+}
+
+// RX9 (C11, C09): consumers never edit the AST in place. The AST is shared: the compiler keeps it
+// (RetainASTs), results are cloned around it, several passes walk it. Accessors such as
+// FileNode.Children() return the node's own slice, so an in-place slices operation on what an AST
+// accessor returned (slices.Delete/DeleteFunc/Insert/Replace/Reverse/Sort…/Compact…, sort.*,
+// element assignment) rewrites the tree: filtering the EOF child out with slices.DeleteFunc leaves
+// a nil child behind, and the next ast.Walk of the same file panics. Checked in the packages that
+// read ASTs (sourceinfo, parser's result conversion, linker, options): the operand of an in-place
+// operation must not be a value obtained from a method of package ast (directly or through a
+// local that was assigned from one without slices.Clone).
+func rx9ASTNotMutated(w *World) {
+	w.rule("RX9")
+	astp := w.pkg("ast")
+	if astp == nil {
+		return
+	}
+	inPlace := map[string]bool{
+		"slices.Delete": true, "slices.DeleteFunc": true, "slices.Insert": true, "slices.Replace": true, "slices.Reverse": true,
+		"slices.Sort": true, "slices.SortFunc": true, "slices.SortStableFunc": true, "slices.Compact": true, "slices.CompactFunc": true,
+		"sort.Slice": true, "sort.SliceStable": true, "sort.Sort": true, "sort.Stable": true, "sort.Strings": true, "sort.Ints": true,
+	}
+	nOps, nAcc := 0, 0
+	for _, rel := range []string{"sourceinfo", "parser", "linker", "options", ""} {
+		path := modPath
+		if rel != "" {
+			path += "/" + rel
+		}
+		p := w.ByPath[path]
+		if p == nil {
+			continue
+		}
+		info := p.TypesInfo
+		fromAST := func(e ast.Expr) bool {
+			c, ok := ast.Unparen(e).(*ast.CallExpr)
+			if !ok {
+				return false
+			}
+			f := callee(info, c)
+			if f == nil || f.Pkg() != astp.Types {
+				return false
+			}
+			sig, ok := f.Type().(*types.Signature)
+			if !ok || sig.Recv() == nil || sig.Results().Len() != 1 {
+				return false
+			}
+			_, isSlice := sig.Results().At(0).Type().Underlying().(*types.Slice)
+			return isSlice
+		}
+		for _, b := range allFuncBodies(p) {
+			if b.Lit != nil {
+				continue
+			}
+			// locals assigned from an AST accessor
+			astVars := map[types.Object]bool{}
+			ast.Inspect(b.Body, func(x ast.Node) bool {
+				if as, ok := x.(*ast.AssignStmt); ok && len(as.Lhs) == len(as.Rhs) {
+					for i, r := range as.Rhs {
+						if fromAST(r) {
+							nAcc++
+							if id, ok := as.Lhs[i].(*ast.Ident); ok {
+								o := info.Defs[id]
+								if o == nil {
+									o = info.Uses[id]
+								}
+								if o != nil {
+									astVars[o] = true
+								}
+							}
+						}
+					}
+				}
+				return true
+			})
+			isASTSlice := func(e ast.Expr) bool {
+				e = ast.Unparen(e)
+				if fromAST(e) {
+					return true
+				}
+				if se, ok := e.(*ast.SliceExpr); ok {
+					e = ast.Unparen(se.X)
+					if fromAST(e) {
+						return true
+					}
+				}
+				if id, ok := e.(*ast.Ident); ok {
+					return astVars[info.Uses[id]]
+				}
+				return false
+			}
+			ast.Inspect(b.Body, func(x ast.Node) bool {
+				switch s := x.(type) {
+				case *ast.CallExpr:
+					f := callee(info, s)
+					if f == nil || f.Pkg() == nil || len(s.Args) == 0 {
+						return true
+					}
+					name := f.Pkg().Path() + "." + f.Name()
+					if !inPlace[name] {
+						return true
+					}
+					nOps++
+					key := "ast-not-mutated|" + b.Label + "|" + name + "(" + types.ExprString(s.Args[0]) + ")"
+					if isASTSlice(s.Args[0]) {
+						w.violation(key, s.Pos(), name+" works in place on "+types.ExprString(s.Args[0])+", which is the slice an AST accessor returned (the node's own storage): the tree is rewritten while other passes still use it — e.g. deleting the EOF child from FileNode.Children() leaves a nil element, and the next ast.Walk of the same file panics; clone the slice first")
+					} else {
+						w.ok(key, s.Pos(), "the in-place operation does not work on a slice handed out by an AST accessor")
+					}
+				case *ast.AssignStmt:
+					for _, l := range s.Lhs {
+						if ix, ok := ast.Unparen(l).(*ast.IndexExpr); ok && isASTSlice(ix.X) {
+							if _, isMap := info.TypeOf(ix.X).Underlying().(*types.Map); isMap {
+								continue
+							}
+							nOps++
+							w.violation("ast-not-mutated|"+b.Label+"|"+types.ExprString(l), s.Pos(), "an element of a slice handed out by an AST accessor is assigned ("+types.ExprString(l)+"): the tree is rewritten in place while other passes still use it")
+						}
+					}
+				}
+				return true
+			})
+		}
+	}
+	w.info("ast-not-mutated|count", token.NoPos, fmt.Sprintf("%d in-place slice operations examined, %d AST slice accessors bound to locals", nOps, nAcc))
+	w.floor("AST slice accessors read by the consumers", nAcc, 3)
+}
+
+// RO3 (C20, C21): the in-place filter idiom is used on owned slices only. `dst := src[:0]` followed
+// by `dst = append(dst, kept…)` compacts the kept elements at the front of src's backing array. That
+// is sound when the function owns src; when src is a parameter (or a field of a message the
+// caller handed in) the caller's storage is rewritten while it — or somebody it shares the slice
+// with — still reads it. The parser stores one option slice on every range of
+// `extensions 1 to 5, 10 to 20 [...]`: compacting it while the first range is interpreted changes
+// the options the sibling ranges are about to read (standard options vanish, custom ones appear
+// twice). Checked in the packages that interpret and link descriptors.
+func ro3InPlaceFilterOnOwnedSlices(w *World) {
+	w.rule("RO3")
+	n := 0
+	for _, rel := range []string{"options", "linker", "parser", "sourceinfo", "internal"} {
+		p := w.ByPath[modPath+"/"+rel]
+		if p == nil {
+			continue
+		}
+		info := p.TypesInfo
+		for _, b := range allFuncBodies(p) {
+			if b.Lit != nil {
+				continue
+			}
+			params := map[types.Object]bool{}
+			sig := b.Obj.Type().(*types.Signature)
+			for i := 0; i < sig.Params().Len(); i++ {
+				params[sig.Params().At(i)] = true
+			}
+			ast.Inspect(b.Body, func(x ast.Node) bool {
+				as, ok := x.(*ast.AssignStmt)
+				if !ok || len(as.Lhs) != 1 || len(as.Rhs) != 1 {
+					return true
+				}
+				se, ok := ast.Unparen(as.Rhs[0]).(*ast.SliceExpr)
+				if !ok || se.Low != nil || se.High == nil || render(se.High) != "0" || se.Slice3 {
+					return true
+				}
+				dst, ok := as.Lhs[0].(*ast.Ident)
+				if !ok {
+					return true
+				}
+				src := ast.Unparen(se.X)
+				if render(src) == dst.Name {
+					return true // buf = buf[:0]: a reset of the function's own scratch slice
+				}
+				notOwned := ""
+				switch s := src.(type) {
+				case *ast.Ident:
+					if params[info.Uses[s]] {
+						notOwned = "the parameter " + s.Name
+					}
+				case *ast.SelectorExpr:
+					if f, ok := info.Uses[s.Sel].(*types.Var); ok && f.IsField() {
+						notOwned = "the field " + types.ExprString(s)
+					}
+				}
+				// is dst appended to?
+				dobj := info.Defs[dst]
+				if dobj == nil {
+					dobj = info.Uses[dst]
+				}
+				appended := false
+				ast.Inspect(b.Body, func(y ast.Node) bool {
+					if c, ok := y.(*ast.CallExpr); ok && isBuiltinCall(info, c, "append") && len(c.Args) > 0 {
+						if id, ok := ast.Unparen(c.Args[0]).(*ast.Ident); ok && info.Uses[id] == dobj {
+							appended = true
+						}
+					}
+					return true
+				})
+				if !appended {
+					return true
+				}
+				n++
+				key := "in-place-filter|" + b.Label + "|" + dst.Name + " := " + types.ExprString(se)
+				if notOwned == "" {
+					w.ok(key, as.Pos(), "the compacted slice is a local of this function")
+				} else {
+					w.violation(key, as.Pos(), dst.Name+" := "+types.ExprString(se)+" compacts the kept elements into the storage of "+notOwned+", which the caller (or whoever shares the slice with it) still reads: the parser stores one option slice on every range of an `extensions a to b, c to d [...]` statement, so interpreting the first range rewrites the options of the others (standard options vanish, custom ones are seen twice)")
+				}
+				return true
+			})
+		}
+	}
+	w.info("in-place-filter|count", token.NoPos, fmt.Sprintf("%d in-place filter idioms (x := y[:0] then append) examined", n))
 }
